@@ -14,6 +14,7 @@ package vsched
 
 import (
 	"fmt"
+	"runtime"
 	"runtime/debug"
 	"sync"
 )
@@ -38,6 +39,7 @@ type Actor struct {
 	done     bool
 	returnTo *Actor // parent to resume at the first Point after a spawn
 	Frozen   bool   // crashed / stopped forever by the driver
+	goid     int64  // goroutine running the actor
 	Blocked  int    // number of scheduling decisions at which the actor was parked and not enabled
 }
 
@@ -121,6 +123,32 @@ func (s *Sched) Actors() []*Actor {
 	return append([]*Actor(nil), s.actors...)
 }
 
+func goid() int64 {
+	var buf [64]byte
+	b := buf[:runtime.Stack(buf[:], false)]
+	// "goroutine 123 [running]:..."
+	var n int64
+	for _, c := range b[len("goroutine "):] {
+		if c < '0' || c > '9' {
+			break
+		}
+		n = n*10 + int64(c-'0')
+	}
+	return n
+}
+
+// OnActor returns the running actor if the calling goroutine is that actor,
+// nil for goroutines the scheduler does not control (they must not call Point).
+func (s *Sched) OnActor() *Actor {
+	g := goid()
+	s.mu.Lock()
+	defer s.mu.Unlock()
+	if s.cur != nil && s.cur.goid == g {
+		return s.cur
+	}
+	return nil
+}
+
 // Current returns the running actor.
 func (s *Sched) Current() *Actor {
 	s.mu.Lock()
@@ -140,6 +168,7 @@ func (s *Sched) spawn(name string, fn func(), parent *Actor) *Actor {
 	s.actors = append(s.actors, a)
 	s.mu.Unlock()
 	go func() {
+		a.goid = goid()
 		<-a.wake
 		defer func() {
 			if r := recover(); r != nil {
